@@ -31,11 +31,12 @@ func init() {
 			"plus 5 name families with '-' inside source and integration names (4 of them with DISTINCT pairs whose joined \"<source>-<integration>\" or \"<integration>-<source>\" strings coincide) x every file/database placement of every integration and source. " +
 			"plus integrations that name the SAME source more than once (5 reference lists: same range, different ranges, next to a second source, three times) x {file, database, disabled, clash with a plain row of the same name in either direction} x second plain integration x source placements x stored form: " +
 			"expected = one task per distinct pair (start/stop of either reference) or a start-up error, never two tasks for one pair. " +
+			"plus the same integration NAME more than once (two/three rows of one name in shovel.integrations, twice in the file, under a plain file integration of that name; second entry identical / other range / other source / disabled / unknown source / two sources): entries of one name are one integration, any one of them may count, exactly one task per pair. " +
 			"G: ONE config.Root decoded once as main.go does (json decode + ValidateFix, slice capacity as the decoder leaves it) handed by value to the real loadTasks generation after generation: file sets of 3, 4, 5 integrations (thorough 2..7) x clashing file integration enabled/disabled " +
-			"x nothing or one row stored before start-up x every ordered selection of up to 3 (thorough 4) stored integrations whose names sort before / between / after the file's or clash with one, each store followed by two restarts; after EVERY generation task set == configured set at that time. " +
+			"x nothing or one row stored before start-up x every ordered selection of up to 3 (thorough 4) stored integrations whose names sort before / between / after the file's or clash with one, each store followed by two restarts, optionally the first stored name stored AGAIN with another range; after EVERY generation task set == configured set at that time. " +
 			"S: jobs = topology {1d: one ending task; 1l: one never-ending task; 1c: name clash + disabled database row; thorough also 2d/2l: two sources, one only in the database} x scenario " +
 			"{early: save request racing with start-up; after: save after start-up; b2b: save then restart from one thread; two: save and restart from two threads; late: save when the first generation is quiescent; " +
-			"fail: save of an integration with an unknown source, row removed, restart; gens (topologies 3f/5f: three/five file integrations): save, restart, save another, restart through one Manager; boot (topologies 1u/1v: a file / a stored integration names its source twice): start-up only; dupsave: the dashboard is asked to store such an integration}; in S every generation's loaded task set is compared with the configuration present when it read shovel.integrations; per job every schedule within the job's preemption bound (quick: 2, early/two 1; thorough: 3, early/two 2 or 1), all free choices, " +
+			"fail: save of an integration with an unknown source, row removed, restart; gens (topologies 3f/5f: three/five file integrations): save, restart, save another, restart through one Manager; boot (topologies 1u/1v: a file / a stored integration names its source twice): start-up only; dupsave: the dashboard is asked to store such an integration; boot on 1w: one integration stored twice (two rows of one name); resave: the dashboard stores the same integration twice}; in S every generation's loaded task set is compared with the configuration present when it read shovel.integrations; per job every schedule within the job's preemption bound (quick: 2, early/two 1; thorough: 3, early/two 2 or 1), all free choices, " +
 			"inside the window from the creation of the first restarter until the last request returned. Reductions: a generation (Run thread, its runners, their goroutines) is one thread group, switches inside it are not enumerated; " +
 			"helper goroutines (head poller, update notifier) are never switched to preemptively; while a runner runs, switches to restarter/Run threads are offered at its SQL batches and its select only. " +
 			"An S execution is non-trivial when a restart request ran and at least two generations loaded; distinct = distinct (job, choice sequence).",
